@@ -1085,9 +1085,9 @@ func TestCheck(t *testing.T) {
 	y := vlib.NewYielder(run.Seed(), 25)
 	y.Install()
 	defer vlib.Uninstall()
-	run.Each(run.N(600, 60000), 8, func(i int) { testerCase(run, i) })
+	run.Each(run.N(600, 200000), 8, func(i int) { testerCase(run, i) })
 	pinned(run)
-	run.Each(run.N(240, 12000), 4, func(i int) { runHistory(run, i, nil) })
+	run.Each(run.N(240, 40000), 4, func(i int) { runHistory(run, i, nil) })
 	agg := vlib.NewHitAgg()
 	agg.Add(y)
 	agg.Report(run)
